@@ -16,7 +16,7 @@ func init() {
 	streams["paths"] = streamPaths
 }
 
-var pathSegs = []string{"vendor", "vendorx", "testdata", "node_modules", "ignoredir", "ignoredirx", "nested", "sub", "pkg", "l0", ".github", ".git", "goat", "git", "venv"}
+var pathSegs = []string{"vendor", "vendorx", "testdata", "node_modules", "ignoredir", "ignoredirx", "nested", "sub", "pkg", "l0", ".github", ".git", "goat", "git", "venv", "loadtestdata"}
 var pathFiles = []string{"a.go", "a_test.go", "b.txt", "ignored_file.go", "go.go", "x_test.go.go"}
 
 type pathCfg struct {
